@@ -74,6 +74,13 @@ fn npy_bases(tier: Tier) -> Vec<NpyBase> {
         bytes.extend((0..n * 8).map(|b| (b * 3 + i) as u8 & 0x3f));
         v.push(NpyBase { name: format!("numpy-layout <f8 v1 shape {s:?} with a 16-aligned header of {} bytes", 10 + header_len), bytes, itemsize: 8 });
     }
+    // unsigned and narrower integer types in both byte orders (a reader that takes the wrong item
+    // size accepts some strict prefix or extension of such a file)
+    for (i, (descr, size, s)) in [("<u8", 8usize, vec![5usize]), (">u8", 8, vec![2, 3]), ("<u4", 4, vec![2, 3]), (">u4", 4, vec![7]), ("<u2", 2, vec![3, 3]), ("<i4", 4, vec![2, 2, 2]), (">f4", 4, vec![5]), ("|i1", 1, vec![2, 3])].into_iter().enumerate() {
+        let n: usize = s.iter().product();
+        let data: Vec<u8> = (0..n * size).map(|b| (b * 11 + i) as u8 & 0x3f).collect();
+        v.push(NpyBase { name: format!("numpy-layout {descr} v1 shape {s:?}"), bytes: synth(1, &dict_text(descr, false, &s, &np), &data), itemsize: size });
+    }
     // column-major files of shapes for which the layout coincides with row-major (one axis, or all
     // axes but one of length one): whether or not such a file is accepted undamaged, a damaged one
     // has the wrong number of values and is invalid under every reading
@@ -304,6 +311,36 @@ fn text_cases(shapes: &[Vec<usize>]) -> Vec<TextCase> {
         for (text, desc) in later {
             out.push(TextCase { text, what: format!("shape {s:?}: {desc}"), class: "surplus-on-later-line", consistent: false });
         }
+        // values laid out over several lines (one line per index of the first axis; a single axis
+        // split in two) with surplus tokens at line ends: 1..rows of them, with LF and CRLF line ends
+        {
+            let rows = if s.len() >= 2 { s[0] } else { 2 };
+            let per = (toks.len() + rows - 1) / rows.max(1);
+            if rows >= 2 && per >= 1 && toks.len() >= 2 {
+                let lines: Vec<Vec<String>> = toks.chunks(per).map(|c| c.to_vec()).collect();
+                for k in 1..=lines.len() {
+                    for first in 0..lines.len() {
+                        if k > 1 && first > 0 {
+                            continue;
+                        }
+                        let mut l = lines.clone();
+                        for j in 0..k {
+                            let at = (first + j) % lines.len();
+                            l[at].push(format!("{}", 7 + j));
+                        }
+                        for (nl, nl_name) in [("\n", "LF"), ("\r\n", "CRLF")] {
+                            let body: Vec<String> = l.iter().map(|t| t.join(" ")).collect();
+                            out.push(TextCase {
+                                text: format!("{}{nl}{}{nl}", header(s), body.join(nl)),
+                                what: format!("shape {s:?}: values over {} lines ({nl_name}), {k} surplus token(s) at line ends starting with line {first}", lines.len()),
+                                class: "surplus-at-line-ends",
+                                consistent: false,
+                            });
+                        }
+                    }
+                }
+            }
+        }
         // shape edits: +-1 per axis, axis appended / prepended / removed
         let mut edits: Vec<(Vec<usize>, String)> = Vec::new();
         for a in 0..s.len() {
@@ -319,6 +356,12 @@ fn text_cases(shapes: &[Vec<usize>]) -> Vec<TextCase> {
                 let mut e = s.clone();
                 e.remove(a);
                 edits.push((e, format!("axis {a} removed")));
+            }
+            // zeros typed behind an axis length
+            for f in [10usize, 100] {
+                let mut e = s.clone();
+                e[a] *= f;
+                edits.push((e, format!("axis {a} x{f}")));
             }
         }
         for extra in [1usize, 2, 3] {
